@@ -94,7 +94,8 @@ G(fn, f, extra) == A(fn, {f}, "R", {L("t", "R")} \cup extra)
 Snapshot(pub) ==
   LET x == Pub(pub) \cup RvR IN
   << A("gateway.treasureToKeyValuePair", {"alloc"}, "R", Pub(pub)), G("treasure.GetKey", "key", x), G("treasure.GetContentType", "content", x), G("treasure.GetContentInt64", "content", x),
-     G("treasure.GetContentByteArray", "content", x), G("treasure.GetCreatedAt", "createdAt", x), G("treasure.GetCreatedBy", "createdBy", x),
+     G("treasure.GetContentByteArray", "content", x), G("treasure.GetContentUint32", "content", x), G("treasure.GetContentFloat64", "content", x),
+     G("treasure.Uint32SliceGetAll", "content", x), G("treasure.GetCreatedAt", "createdAt", x), G("treasure.GetCreatedBy", "createdBy", x),
      G("treasure.GetModifiedAt", "modifiedAt", x), G("treasure.GetModifiedBy", "modifiedBy", x), G("treasure.GetExpirationTime", "expiration", x) >>
 
 \* a setter call under the guard
@@ -222,6 +223,18 @@ Path(n) ==
                              GG("treasure.GetContentInt64", "content"), S("treasure.SetContentInt64", {"content"}) >> \o SaveExisting
                           \o << GG("treasure.GetCreatedAt", "createdAt"), GG("treasure.GetCreatedBy", "createdBy"), GG("treasure.GetModifiedAt", "modifiedAt"),
                                 GG("treasure.GetModifiedBy", "modifiedBy"), GG("treasure.GetExpirationTime", "expiration") >>
+    \* the other typed increments have the shape of IncrementInt64
+    [] n = "inc_u32"   -> << Lookup, GG("treasure.GetContentType", "content"), GG("treasure.GetContentUint32", "content"),
+                             S("treasure.SetContentUint32", {"content"}) >> \o SaveExisting
+    [] n = "inc_f64"   -> << Lookup, GG("treasure.GetContentType", "content"), GG("treasure.GetContentFloat64", "content"),
+                             S("treasure.SetContentFloat64", {"content"}) >> \o SaveExisting
+    \* Uint32Slice writers: under the guard AND t.mu.Lock (treasure.go takes the write lock itself): protected against
+    \* every getter in the code as built, too
+    [] n = "u32_push"  -> << Lookup, A("treasure.Uint32SlicePush", {"content", "flags"}, "W", {Sp("g", "W"), L("t", "W"), L("pub", "R")}) >> \o SaveExisting
+    [] n = "u32_del"   -> << Lookup, GG("treasure.Uint32SliceSize", "content"),
+                             A("treasure.Uint32SliceDelete", {"content", "flags"}, "W", {Sp("g", "W"), L("t", "W"), L("pub", "R")}) >> \o SaveExisting
+                          \o << GG("treasure.Uint32SliceSize", "content") >>
+    [] n = "u32_read"  -> << Lookup, G("treasure.Uint32SliceSize", "content", {L("pub", "R")}), G("treasure.Uint32SliceGetAll", "content", {L("pub", "R")}) >>
     [] n = "patch"     -> << Lookup, GG("treasure.GetContentType", "content"), GG("treasure.GetContentByteArray", "content"),
                              A("swamp.wrapMsgpackBody", {"body"}, "W", {Sp("g", "W"), L("cpub", "W")}),
                              S("treasure.SetContentByteArray", {"content"}) >> \o SaveExisting
@@ -234,7 +247,7 @@ Path(n) ==
                               S("treasure.BodySetFileName", {"fileName"}) >>
 
 AllPathNames == {"get", "getbykeys", "count", "exists", "getall", "idx_cold_key", "idx_cold_time", "idx_warm", "bucket_cold", "bucket_warm",
-                 "set_upd", "set_new", "inc", "patch", "del", "shift", "filewriter"}
+                 "set_upd", "set_new", "inc", "inc_u32", "inc_f64", "u32_push", "u32_del", "u32_read", "patch", "del", "shift", "filewriter"}
 
 -----------------------------------------------------------------------------
 (* the machine *)
